@@ -1,3 +1,4 @@
+pub mod alpha;
 pub mod delta;
 pub mod lex;
 pub mod trees;
